@@ -9,7 +9,9 @@
 //! elem   := blob[ act k  lp(start emits) lp(in emits) lp(end emits) ]   act%3: 0 pass 1 modify(+k) 2 consume
 //! emits  := (peer delay id)*        peer odd = send_in(.., "out", delay), even = schedule_in(.., delay)
 //! mod    := mode nOwn blob*  blob[ handler ]    mode%4: 0 default stack, 1 default++own, 2 own, 3 own++default
-//! handler:= stages(%4) xkind(%3: 0 none 1 timer 2 shutdown) xa xb xc  lp(start) lp(msg) lp(end) lp(task)
+//! handler:= stages(%4) xkind(%4: 0 none 1 timer 2 shutdown 3 caught panic) xa xb xc  lp(start) lp(msg) lp(end) lp(task)
+//!          panic: the module's stereotype gets on_panic_catch; xb%3 = 0 handle_message of payload xa panics,
+//!          1 at_sim_start(xa) panics, 2 at_sim_end panics (each after its sends)
 //! inj    := kind dst time id        kind odd = handle_message_on, even = add_message_onto(port)
 //!
 //! Output: the call log, 5 numbers per entry: module who hook a b
@@ -17,6 +19,8 @@
 //!   hook: 1 event_start(a=now) 2 incoming(a=payload) 3 event_end 4 handle_message(a=payload,b=now)
 //!         5 at_sim_start(a=stage,b=now) 6 at_sim_end(a=now) 7 task resumed(a=now) 8 reset
 //!         9 schedule_in(a=delay,b=id) 10 send_in(a=delay,b=id) 11 shutdown(a=1 iff restart, b=delay)
+//!         12 the callback panics now
+use des::net::module::Stereotyp;
 use des::net::processing::ProcessingStack;
 use des::prelude::*;
 use implrun::Cur;
@@ -107,7 +111,7 @@ fn dec_elem(b: &[u64]) -> ElemCfg {
 fn dec_handler(b: &[u64]) -> HandlerCfg {
     let mut c = Cur::new(b);
     let stages = c.next() % 4;
-    let xkind = c.next() % 3;
+    let xkind = c.next() % 4;
     let xa = c.next();
     let xb = c.next();
     let xc = c.next();
@@ -226,6 +230,10 @@ impl Module for ScriptModule {
                 do_emits(m, 1, &task);
             });
         }
+        if h.xkind == 3 && h.xb % 3 == 1 && stage as u64 == h.xa {
+            log(self.m, 0, 12, 0, 0);
+            panic!("scripted panic in at_sim_start");
+        }
     }
 
     fn handle_message(&mut self, msg: Message) {
@@ -242,11 +250,19 @@ impl Module for ScriptModule {
                 current().shutdown();
             }
         }
+        if h.xkind == 3 && h.xb % 3 == 0 && x == h.xa {
+            log(self.m, 0, 12, 0, 0);
+            panic!("scripted panic in handle_message");
+        }
     }
 
     fn at_sim_end(&mut self) -> Result<(), RuntimeError> {
         log(self.m, 0, 6, now(), 0);
         do_emits(self.m, 0, &self.cfg.handler.end);
+        if self.cfg.handler.xkind == 3 && self.cfg.handler.xb % 3 == 2 {
+            log(self.m, 0, 12, 0, 0);
+            panic!("scripted panic in at_sim_end");
+        }
         Ok(())
     }
 
@@ -299,6 +315,12 @@ fn run_line(nums: &[u64]) -> Vec<u64> {
         sim.get(&ObjectPath::from("a")).expect("module a"),
         sim.get(&ObjectPath::from("b")).expect("module b"),
     ];
+
+    for m in 0..2 {
+        if mods[m].handler.xkind == 3 {
+            refs[m].set_stereotyp(Stereotyp { on_panic_catch: true, ..Stereotyp::HOST });
+        }
+    }
 
     let mut rt = Builder::seeded(1).quiet().build(sim.freeze());
     for (direct, dst, t, x) in inj {
